@@ -11,7 +11,9 @@ ADVERSARIAL = ["'+str(print('PWNED'))+'", "' or True or '", "\\", "\\'", "');imp
 
 INTS = ["0", "7", "18", "9007199254740993", "1" + "0" * 30, "007", "00", "4294967296", "1" + "0" * 299]
 NEG_INTS = ["-1", "-9007199254740993", "-0"]
-FLOATS = ["1.5", "0.1", "2.50", "3.0", "0.000000001", "1000000000.0", "0.0", "123456789.123456789", "00.5", "1.0000000000000001"]
+FLOATS = ["1.5", "0.1", "2.50", "3.0", "0.000000001", "1000000000.0", "0.0", "123456789.123456789", "00.5", "1.0000000000000001",
+          # shortest repr in exponent notation / beyond 2**53 / many decimals
+          "0.00001", "10000000000000000.0", "123456789012345678.0", "0.00000015", "9007199254740993.0", "0.1000000000000000055511151231257827"]
 NEG_FLOATS = ["-0.5", "-3.0", "-0.0"]
 
 
